@@ -6,7 +6,7 @@ import RattrModel.MainRun
 import RattrModel.Generated.C16
 
 /- Driver ops of C16: `c16_tables` (the model's source tables, so that the harness never keeps a
-copy of its own). -/
+copy of its own), `c16_main` / `c16_out` (the whole `main` of the model, every output mode). -/
 namespace Rattr.Driver.C16
 open Lean Rattr Rattr.Driver Rattr.Diag Rattr.DiagSites
 
@@ -51,5 +51,42 @@ def handleMain (payload : Json) : R Json := do
                        ("events", jList (evs.map fun e => Json.arr #[Json.str (C15.levelStr e.level), Json.num e.badness,
                                                                     Json.str (C15.whereStr e.loc)])),
                        ("hasDoc", Json.bool st.doc.isSome), ("runs", jList runs)]
+
+def parseMode (s : String) : R MainRun.OutMode :=
+  match MainRun.OutMode.every.find? (fun m => m.name == s) with
+  | some m => pure m
+  | none => throw s!"unknown output mode {s}"
+
+def jPrinted : MainRun.Printed → Json
+  | .stats d => Json.mkObj [("mode", Json.str "stats"), ("buckets", C15.jState d.buckets), ("threshold", Json.num d.threshold)]
+  | .ir d => Json.mkObj [("mode", Json.str "ir"), ("filename", Json.str d.filename.toS),
+                         ("contextFile", Json.str d.contextFile.toS),
+                         ("symbols", jList (d.symbols.map fun (k, f) => Json.arr #[Json.str k.toS, Json.str f.toS])),
+                         ("importIrs", jStrList (d.importIrs.map Str.toS))]
+  | .results d => Json.mkObj [("mode", Json.str "results"), ("doc", Pipeline.docJson d)]
+  | .cacheable d => Json.mkObj [("mode", Json.str "cacheable"), ("filepath", Json.str d.filepath.toS),
+                                ("doc", Pipeline.docJson d.results)]
+
+/-- op `c16_out`: `MainRun.mainOutWith` on a `pipeline` payload, the target as spelled (`target`) and a
+list of `jobs` = [configuration, output mode]. -/
+def handleOut (payload : Json) : R Json := do
+  let c ← File.parseCase payload
+  let imp ← (← asArr (fieldD payload "imports" (Json.arr #[]))).mapM Pipeline.asImpFact
+  let ties ← asStr (fieldD payload "ties" (Json.str "insertion"))
+  let ord : List CallSym → List CallSym := if ties == "reversed" then List.reverse else id
+  let target := str (← asStr (← field payload "target"))
+  let jobs ← (← asArr (← field payload "jobs")).mapM fun j => do
+    match (← asArr j) with
+    | [cfg, mode] => return ((← C15.parseCfg cfg), (← parseMode (← asStr mode)))
+    | _ => throw "expected [cfg, mode]"
+  match MainRun.stagedWith ord c.env c.mn c.facts c.builtins c.body imp with
+  | .error e => return Json.mkObj [("outcome", Json.str "crash"), ("exc", Json.str e.toS)]
+  | .ok st =>
+    let runs := jobs.map fun (cfg, mode) =>
+      let r := MainRun.mainOut mode target cfg st
+      Json.mkObj [("exit", Json.num r.diag.exit), ("buckets", C15.jState r.diag.state),
+                  ("printed", C15.jLines r.diag.printed),
+                  ("stdout", match r.stdout with | some d => jPrinted d | none => Json.null)]
+    return Json.mkObj [("outcome", Json.str "ok"), ("keys", jStrList (st.keys.map Str.toS)), ("runs", jList runs)]
 
 end Rattr.Driver.C16
